@@ -357,7 +357,7 @@ theorem exchange_ok_implies (s : Store) (client : Option String) (token verifier
     check, whose result became the new nonce store -/
 theorem access_ok_implies (s : Store) (client : Option String) (token : Option Ref) (sg : Sig)
     (h : (step s (.access client token sg)).2.status = 200) :
-    ∃ cid csecret c ns, client = some cid ∧ s.clients.lookup cid = some csecret ∧ c ∈ s.creds ∧ token = some (.tok c.n) ∧
+    ∃ cid csecret c ns, client = some cid ∧ s.clients.lookup cid = some csecret ∧ c ∈ s.creds ∧ c.client = cid ∧ token = some (.tok c.n) ∧
       sg.signedWith = some (csecret, .sec (c.n + 1)) ∧ (∃ m, sg.method = some m ∧ m ∈ s.methods) ∧
       checkTsNonce s sg cid token = .ok ns ∧ (step s (.access client token sg)).1.nonces = ns := by
   simp only [step] at h ⊢
@@ -381,12 +381,13 @@ theorem access_ok_implies (s : Store) (client : Option String) (token : Option R
             cases ref with
             | tok n =>
               simp only at h ⊢
-              cases hf : s.creds.find? (fun (c : CredRec) => c.n == n) with
+              cases hf : s.creds.find? (fun (c : CredRec) => c.n == n && c.client == cid) with
               | none => simp [hf, err] at h
               | some c =>
                 simp only [hf] at h ⊢
                 obtain ⟨hmem, hpn⟩ := find_mem _ s.creds c hf
-                have hcn : c.n = n := by simpa using hpn
+                have hpn' : c.n = n ∧ c.client = cid := by simpa using hpn
+                have hcn : c.n = n := hpn'.1
                 cases hn : checkTsNonce s sg cid (some (.tok n)) with
                 | error e =>
                   simp only [hn] at h
@@ -399,7 +400,7 @@ theorem access_ok_implies (s : Store) (client : Option String) (token : Option R
                     exact absurd h (checkSig_some_status _ _ _ _ _ hsg)
                   | none =>
                     obtain ⟨hm, hsw⟩ := checkSig_none s sg csecret _ hsg
-                    exact ⟨cid, csecret, c, ns, rfl, hl, hmem, by rw [hcn], hsw, hm, hn, rfl⟩
+                    exact ⟨cid, csecret, c, ns, rfl, hl, hmem, hpn'.2, by rw [hcn], hsw, hm, hn, rfl⟩
             | _ => simp [err] at h
 
 /-! ### replay defence -/
@@ -480,14 +481,14 @@ theorem nonce_tuple_accepted_at_most_once (s : Store) (client : Option String) (
     (hnb : ¬ Bare sg) (h : (step s (.access client token sg)).2.status = 200) (later : List Op) (sg' : Sig)
     (hsame : sg'.nonce = sg.nonce ∧ sg'.timestamp = sg.timestamp) (hnb' : ¬ Bare sg') :
     (step (run (step s (.access client token sg)).1 later) (.access client token sg')).2.status ≠ 200 := by
-  obtain ⟨cid, _, _, ns, hcl, _, _, _, _, _, hn, hstore⟩ := access_ok_implies s client token sg h
+  obtain ⟨cid, _, _, ns, hcl, _, _, _, _, _, _, hn, hstore⟩ := access_ok_implies s client token sg h
   have hrec : keyOf sg cid token ∈ (step s (.access client token sg)).1.nonces := by
     rw [hstore]
     rcases checkTsNonce_ok s sg cid token ns hn with ⟨hb, _⟩ | ⟨_, rfl, _⟩
     · exact absurd hb hnb
     · simp
   intro h2
-  obtain ⟨cid', _, _, ns', hcl', _, _, _, _, _, hn', _⟩ := access_ok_implies _ client token sg' h2
+  obtain ⟨cid', _, _, ns', hcl', _, _, _, _, _, _, hn', _⟩ := access_ok_implies _ client token sg' h2
   have hc : cid' = cid := by rw [hcl] at hcl'; injection hcl' with e; exact e.symm
   subst hc
   have hkey : keyOf sg' cid' token = keyOf sg cid' token := by simp [keyOf, hsame.1, hsame.2]
@@ -506,7 +507,7 @@ theorem old_timestamp_refused (s : Store) (sg : Sig) (client : String) (token : 
 /-- only the configured signature methods are accepted -/
 theorem only_configured_methods (s : Store) (client : Option String) (token : Option Ref) (sg : Sig)
     (h : (step s (.access client token sg)).2.status = 200) : ∃ m, sg.method = some m ∧ m ∈ s.methods := by
-  obtain ⟨_, _, _, _, _, _, _, _, _, hm, _, _⟩ := access_ok_implies s client token sg h
+  obtain ⟨_, _, _, _, _, _, _, _, _, _, hm, _, _⟩ := access_ok_implies s client token sg h
   exact hm
 
 end Props.C12
